@@ -136,6 +136,8 @@ pub fn gen_template(rng: &mut Rng, tag: &str, tabs: bool) -> String {
                 2 => l.push_str(&styled(rng, "prefix", st)),
                 3 => l.push_str(&styled(rng, "pos", st)),
                 4 => l.push_str(&styled(rng, "len", st)),
+                // (tab flavour: now and then an escaped brace, also right behind a tab)
+                5 if tabs && rng.chance(1, 3) => l.push_str(*rng.pick(&["\t{{", "{{", "}}", "\tb{{x}}", "{{\t}}"])),
                 5 => l.push_str(if tabs { "\t" } else { ":" }),
                 _ => l.push_str(*rng.pick(&[" ", "|", "-", "é", "\x1b[1m", "[]"])),
             }
